@@ -735,13 +735,13 @@ func replayInputs(path string) []interface{} {
 func replay(cfg *lib.Config, res *lib.Result) {
 	dcf, tcf, icf, ccf, wcf, acf := newDescCases(), newATypeCases(), newAInstCases(), newCallableCases(), newWalkCases(), newActualCases()
 	pats, strs := map[string]bool{}, map[string]bool{}
-	ohcf, nhcf := newOHistCases(), newNHistCases()
+	ohcf, nhcf, xhcf := newOHistCases(), newNHistCases(), newXHistCases()
 	hpats, hstrs := map[string]bool{}, map[string]bool{}
 	for _, in := range replayInputs(cfg.Replay) {
 		if replayAlias(res, in, wcf, acf) {
 			continue
 		}
-		if replayHist(res, in, ohcf, nhcf, hpats, hstrs) {
+		if replayHist(res, in, ohcf, nhcf, xhcf, hpats, hstrs) {
 			continue
 		}
 		if replayExt(res, in, ccf, pats, strs) {
@@ -832,5 +832,9 @@ func replay(cfg *lib.Config, res *lib.Result) {
 	if len(nhcf.Cases) > 0 {
 		nhcf.Prelude = lat.Oracle(hpats, hstrs) + histPrelude()
 		res.CorrFiles = append(res.CorrFiles, nhcf.WriteTo(cfg.Out, "cases_nhist_replay"))
+	}
+	if len(xhcf.Cases) > 0 {
+		xhcf.Prelude = lat.Oracle(hpats, hstrs) + histPrelude()
+		res.CorrFiles = append(res.CorrFiles, xhcf.WriteTo(cfg.Out, "cases_xhist_replay"))
 	}
 }
